@@ -169,7 +169,7 @@ def run_case(spec, ctx):
             # coordinates of a small shape far from the origin cannot meet them - not judged
             ctx.event("own-samples-skipped:ill-conditioned")
             continue
-        with ctx.lib(f"sample-{how}", feature=top):
+        with ctx.lib(f"sample-{how}", feature=top, budget_calls=4000 + 400 * n_own * max(k, 1)):
             P, pen = geo.lib_sample(D, how, n_own, prows)
         rows = len(P)
         if rows != n_own * max(k, 1):
